@@ -68,9 +68,23 @@ func newProdHooks(tag string) (*prodHooks, error) {
 			}
 		}
 		w.WriteHeader(200)
+		// a reply the client cannot have completely in hand when the response head arrives: flushed head, then a body
+		// that keeps coming in pieces (what a receiver behind a streaming proxy answers)
+		if f, ok := w.(http.Flusher); ok && strings.HasPrefix(r.URL.Path, "/first") {
+			f.Flush()
+			chunk := []byte(strings.Repeat("acknowledged ", 512))
+			for i := 0; i < 12; i++ {
+				_, _ = w.Write(chunk)
+				f.Flush()
+				if i == 3 {
+					time.Sleep(2 * time.Millisecond)
+				}
+			}
+			return
+		}
 		_, _ = w.Write([]byte("ok"))
 	}))
-	st, err := lib.NewStack(lib.StackOpts{File: lib.TempDB("c11-prod-" + tag + ".db"), NoEngine: true, MaxTries: 1000000})
+	st, err := lib.NewStack(lib.StackOpts{File: lib.TempDB("c11-prod-" + tag + ".db"), NoEngine: true, MaxTries: 3})
 	if err != nil {
 		p.srv.Close()
 		return nil, err
